@@ -1,7 +1,8 @@
 import GlmVerif.Spec.C10
-import GlmVerif.Gen.C10
-/-! table check of family `inv_left` against the model generated from /repo (kernel evaluation) -/
+import GlmVerif.Gen.C10.inv
+/-! table check of family `inv_left` against the model of its units generated from /repo (kernel evaluation) -/
 namespace Glm.Props.C10
 open Glm Glm.Spec.C10 Glm.Gen.C10
-theorem inv_left_ok : f_inv_left.ok lookup = true := by decide +kernel
+set_option maxHeartbeats 4000000 in
+theorem inv_left_ok : f_inv_left.ok (fun _ ks => inv_L ks) = true := by decide +kernel
 end Glm.Props.C10
